@@ -5,10 +5,15 @@
 //!                damage one member inside the zip, pre-populate the output directories, then re-execute
 //!                THIS binary (`c10 child <scratch>`) under `strace -f` so that every file-changing system
 //!                call of the real extraction is recorded; turn the log into FsModel events and print
-//!                ( result (canonical events) (final state per output) leftovers (raw events) ).
+//!                ( result (canonical events) (final state per output) leftovers (aliases_bad rewritten_in_place) (raw events) ).
+//!                The previous output may be a plain file, a file with a second hard link, a symbolic link to a
+//!                file elsewhere, or sit in a 0700 directory; `aliases_bad` counts other names of the previous
+//!                file that no longer hold its complete bytes, `rewritten_in_place` outputs whose new content sits in
+//!                the PREVIOUS inode (whatever calls put it there).  ANY open-for-writing / truncate / write / data call
+//!                on an existing non-temp path below the output root is reported, however the path was reached.
 //!   c10 live     large outputs; the real extraction runs on a tokio blocking thread while polling readers
 //!                open+read every output path and holders keep a descriptor opened before; prints
-//!                ( result torn holders_bad (final state) leftovers (counts) ).
+//!                ( result torn holders_bad (final state) leftovers (aliases_bad rewritten_in_place) (counts) ).
 //!   c10 child D  (internal) run the extraction described in D/spec.sx on D/entry.bin.
 use sccache::verif_hooks::cache::{CacheRead, CacheWrite, DecompressionFailure, FileObjectSource};
 use std::collections::HashMap;
@@ -32,6 +37,9 @@ struct Out {
     optional: bool,
     old: Option<(usize, u32)>, // size, mode
     old_is_dir: bool,
+    /// shape of the previous output: plain | hardlink (a second name `links/<i>` for the same inode) |
+    /// symlink (the output path is a symbolic link to `links/<i>`) | dir700 (its directory has mode 0700)
+    shape: String,
     fault: String, // none missing corrupt_head corrupt_mid corrupt_tail bad_method no_dir
 }
 
@@ -53,8 +61,9 @@ fn parse_outs(x: &Sx) -> Vec<Out> {
                 size: o.arg(2).u64() as usize,
                 mode: o.arg(3).u64() as u32,
                 optional: o.arg(4).as_bool(),
-                old: if old.list().len() == 2 { Some((old.arg(0).u64() as usize, old.arg(1).u64() as u32)) } else { None },
+                old: if old.list().len() >= 2 { Some((old.arg(0).u64() as usize, old.arg(1).u64() as u32)) } else { None },
                 old_is_dir,
+                shape: if old.list().len() >= 3 { old.arg(2).str() } else { "plain".to_string() },
                 fault: o.arg(6).str(),
             }
         })
@@ -148,6 +157,8 @@ struct Built {
     objects: Vec<FileObjectSource>,
     news: Vec<Vec<u8>>,
     olds: Vec<Option<Vec<u8>>>,
+    /// inode number of the previous regular file at each output path
+    old_inos: Vec<Option<u64>>,
 }
 
 fn build(seed: u64, outs: &[Out], rt: &tokio::runtime::Runtime) -> Result<Built, String> {
@@ -210,19 +221,49 @@ fn build(seed: u64, outs: &[Out], rt: &tokio::runtime::Runtime) -> Result<Built,
             olds.push(None);
         } else if let Some((sz, mode)) = o.old {
             let c = content(seed, i, false, sz);
-            std::fs::write(&p, &c).unwrap();
-            std::fs::set_permissions(&p, std::fs::Permissions::from_mode(mode)).unwrap();
+            let links = outroot.join("links");
+            let alias = links.join(format!("{}", i));
+            match o.shape.as_str() {
+                "symlink" => {
+                    // the previous output is a symbolic link to a file elsewhere
+                    std::fs::create_dir_all(&links).unwrap();
+                    std::fs::write(&alias, &c).unwrap();
+                    std::fs::set_permissions(&alias, std::fs::Permissions::from_mode(mode)).unwrap();
+                    std::os::unix::fs::symlink(&alias, &p).unwrap();
+                }
+                "hardlink" => {
+                    // the previous output has a second name (cargo / ccache-style hard-linked artefacts)
+                    std::fs::create_dir_all(&links).unwrap();
+                    std::fs::write(&p, &c).unwrap();
+                    std::fs::set_permissions(&p, std::fs::Permissions::from_mode(mode)).unwrap();
+                    std::fs::hard_link(&p, &alias).unwrap();
+                }
+                _ => {
+                    std::fs::write(&p, &c).unwrap();
+                    std::fs::set_permissions(&p, std::fs::Permissions::from_mode(mode)).unwrap();
+                }
+            }
+            if o.shape == "dir700" {
+                std::fs::set_permissions(&d, std::fs::Permissions::from_mode(0o700)).unwrap();
+            }
             olds.push(Some(c));
         } else {
             olds.push(None);
         }
     }
-    let objects = outs
+    let objects: Vec<FileObjectSource> = outs
         .iter()
         .enumerate()
         .map(|(i, o)| FileObjectSource { key: format!("k{}", i), path: outroot.join(&o.dir).join(&o.name), optional: o.optional })
         .collect();
-    Ok(Built { td, outroot, entry, objects, news, olds })
+    let old_inos = objects
+        .iter()
+        .map(|o| {
+            use std::os::unix::fs::MetadataExt;
+            std::fs::symlink_metadata(&o.path).ok().filter(|m| m.file_type().is_file()).map(|m| m.ino())
+        })
+        .collect();
+    Ok(Built { td, outroot, entry, objects, news, olds, old_inos })
 }
 
 fn result_kind(r: &Result<(), anyhow::Error>) -> &'static str {
@@ -233,13 +274,30 @@ fn result_kind(r: &Result<(), anyhow::Error>) -> &'static str {
     }
 }
 
-fn final_state(b: &Built, outs: &[Out]) -> (Sx, usize) {
+fn final_state(b: &Built, outs: &[Out]) -> (Sx, usize, Sx) {
+    use std::os::unix::fs::MetadataExt;
     let mut fin = vec![];
+    let mut alias_bad = 0;
+    let mut inplace = 0;
     for (i, o) in outs.iter().enumerate() {
         let p = b.outroot.join(&o.dir).join(&o.name);
+        // every other name of the PREVIOUS file (second hard link, symlink target) must still hold the complete
+        // previous bytes: the previous inode is never written
+        if o.shape == "hardlink" || o.shape == "symlink" {
+            let alias = b.outroot.join("links").join(format!("{}", i));
+            if std::fs::read(&alias).ok() != b.olds[i] {
+                alias_bad += 1;
+            }
+        }
         let (class, mode) = match std::fs::symlink_metadata(&p) {
             Err(_) => ("absent", 0),
             Ok(m) if m.is_dir() => (if o.old_is_dir { "old" } else { "other" }, 0),
+            Ok(m) if m.file_type().is_symlink() => {
+                // still the previous symbolic link: fine only if what it points to is the untouched previous file
+                let c = std::fs::read(&p).unwrap_or_default();
+                let mode = std::fs::metadata(&p).map(|m| m.permissions().mode() & 0o7777).unwrap_or(0);
+                (if o.shape == "symlink" && b.olds[i].as_ref() == Some(&c) { "old" } else { "other" }, mode)
+            }
             Ok(m) => {
                 let c = std::fs::read(&p).unwrap_or_default();
                 let class = if c == b.news[i] {
@@ -249,6 +307,10 @@ fn final_state(b: &Built, outs: &[Out]) -> (Sx, usize) {
                 } else {
                     "other"
                 };
+                // the new content must sit in a NEW inode (installed by rename), not in the previous one
+                if class == "new" && b.olds[i].is_some() && b.old_inos[i] == Some(m.ino()) {
+                    inplace += 1;
+                }
                 (class, m.permissions().mode() & 0o7777)
             }
         };
@@ -269,7 +331,7 @@ fn final_state(b: &Built, outs: &[Out]) -> (Sx, usize) {
             }
         }
     }
-    (Sx::L(fin), left)
+    (Sx::L(fin), left, Sx::L(vec![Sx::usize(alias_bad), Sx::usize(inplace)]))
 }
 
 // ---------------------------------------------------------------- child: the extraction itself
@@ -741,8 +803,8 @@ fn strace_case(case: &Sx, rt: &tokio::runtime::Runtime) -> Sx {
     let calls = parse_log(&logtxt);
     let root = b.outroot.to_string_lossy().into_owned();
     let raw = raw_events(&calls, &root);
-    let (fin, left) = final_state(&b, &outs);
-    Sx::L(vec![Sx::sym(&kind), canonical(&raw, &outs), fin, Sx::usize(left), raw_sx(&raw)])
+    let (fin, left, alias_bad) = final_state(&b, &outs);
+    Sx::L(vec![Sx::sym(&kind), canonical(&raw, &outs), fin, Sx::usize(left), alias_bad, raw_sx(&raw)])
 }
 
 // ---------------------------------------------------------------- live observers
@@ -870,13 +932,14 @@ fn live_case(case: &Sx, rt: &tokio::runtime::Runtime) -> Sx {
             details.push(d);
         }
     }
-    let (fin, left) = final_state(&b, &outs);
+    let (fin, left, alias_bad) = final_state(&b, &outs);
     Sx::L(vec![
         Sx::sym(kind),
         Sx::n(torn),
         Sx::n(hbad),
         fin,
         Sx::usize(left),
+        alias_bad,
         Sx::L(vec![Sx::n(reads), Sx::n(so), Sx::n(sn), Sx::n(hreads), Sx::B(details.join("; ").into_bytes())]),
     ])
 }
